@@ -204,7 +204,13 @@ def ob_op(game, n, how, perm, opname, ctx):
         import reamber.algorithms.convert as CV
 
         cv = getattr(CV, opname[8:])
-        _same_chart(ctx, opname, _one(cv.convert(a)), _one(cv.convert(b)), extra=("hitsound_file", "sample", "keysounds"))
+        ra, rb = cv.convert(a), cv.convert(b)
+        _same_chart(ctx, opname, _one(ra), _one(rb), extra=("hitsound_file", "sample", "keysounds"))
+        # file-level fields of a converted map set (they place the written timeline): same for both row orders
+        for fld in ("offset", "sample_start", "sample_length", "bpm"):
+            if hasattr(ra, "maps") and hasattr(ra, fld):
+                x, y = getattr(ra, fld), getattr(rb, fld)
+                ctx.check("%s.set-level.%s" % (opname, fld), cell_same(ctx, x, y) if not (x is None or y is None) else x is y, note="%r vs %r" % (ctx.value(x) if x is not None else x, ctx.value(y) if y is not None else y))
     else:
         raise KeyError(opname)
 
